@@ -21,7 +21,8 @@ Open Scope Z_scope.
 Definition sim_delta : Z := 2000000000.
 Definition cfg_repo_eps (d e : Z) : config :=
   Config lock_freshness_interval file_lock_poll_interval lock_stale_factor (Z.to_nat lock_empty_retries)
-         lock_empty_sleep lock_empty_count_resets (lock_hb_checks_created && lock_hb_check_before_truncate) d e.
+         lock_empty_sleep lock_empty_count_resets (lock_hb_checks_created && lock_hb_check_before_truncate)
+         (lock_empty_mtime_guard && (lock_empty_mtime_factor =? lock_stale_factor)) d e.
 Definition cfg_repo (d : Z) : config := cfg_repo_eps d 0.
 
 Record ev := Ev { etime : Z; ekind : Z; ea : Z; eb : Z }.   (* kind: 0 start(tid, pid) 1 unlock(tid) 2 kill(pid) 3 cancel(tid) 4 stop(pid) 5 cont(pid) *)
@@ -29,6 +30,7 @@ Record ob := Ob { otid : Z; oout : Z; otime : Z }.          (* out: 0 acquired 1
 
 Record case := Case {
   cinit : option fcontent;
+  cmtime : Z;          (* modification time of the pre-made lock file (relative, <= 0) *)
   cevents : list ev;
   chorizon : Z;
   ctol : Z;
@@ -39,19 +41,19 @@ Record case := Case {
 }.
 
 Definition get_optz : dec (option Z) := get_opt get_z.
-Definition get_init : dec (option fcontent) :=
+Definition get_init : dec (option fcontent * Z) :=
   tag <- get_z ;;
-  if tag =? 0 then ret None
-  else if tag =? 1 then ret (Some FEmpty)
-  else if tag =? 2 then ret (Some FGarbage)
-  else (c <- get_optz ;; u <- get_optz ;; ret (Some (FMeta c u))).
+  if tag =? 0 then ret (None, 0)
+  else if tag =? 1 then (m <- get_z ;; ret (Some FEmpty, m))
+  else if tag =? 2 then (m <- get_z ;; ret (Some FGarbage, m))
+  else (c <- get_optz ;; u <- get_optz ;; m <- get_z ;; ret (Some (FMeta c u), m)).
 Definition get_ev : dec ev := t <- get_z ;; k <- get_z ;; a <- get_z ;; b <- get_z ;; ret (Ev t k a b).
 Definition get_ob : dec ob := t <- get_z ;; o <- get_z ;; x <- get_z ;; ret (Ob t o x).
 Definition get_case : dec case :=
   i <- get_init ;; es <- get_list get_ev ;; h <- get_z ;; tol <- get_z ;; j <- get_z ;; g <- get_z ;;
   sl <- get_list (p <- get_nat ;; d <- get_z ;; ret (p, d)) ;;
   os <- get_list get_ob ;;
-  ret (Case i es h tol j g sl os).
+  ret (Case (fst i) (snd i) es h tol j g sl os).
 
 Definition sevent_of (e : ev) : sevent :=
   let a := Z.to_nat (ea e) in
@@ -88,7 +90,7 @@ Definition sim_cfg (c : case) : config :=
   cfg_repo_eps (if suspends (cevents c) then no_bound else sim_delta) (cgap c).
 Definition sim_run (c : case) (v : variant) : sim :=
   simulate (sim_cfg c) 4000 (chorizon c)
-           (Sim (init_state (cinit c) (-1)) (script_of (vj v) (cevents c)) [] [] [] [] (cslow c) [] (vlat0 v) (vlats v)).
+           (Sim (init_state (cinit c) (-1) (cmtime c)) (script_of (vj v) (cevents c)) [] [] [] [] (cslow c) [] (vlat0 v) (vlats v)).
 Definition model_outlog_v (c : case) (v : variant) : list (tid * Z * Z) := outlog (sim_run c v).
 Definition model_outlog (c : case) (j : Z) : list (tid * Z * Z) := model_outlog_v c (Variant j 0 []).
 
@@ -299,7 +301,7 @@ Fixpoint sys_trace_of (c : config) (p : pid) (s : state) (ls : list label) : lis
       end
   end.
 Definition model_syscalls_v (c : case) (p : pid) (v : variant) : list Z :=
-  sys_trace_of (sim_cfg c) p (init_state (cinit c) (-1)) (rev (trace (sim_run c v))).
+  sys_trace_of (sim_cfg c) p (init_state (cinit c) (-1) (cmtime c)) (rev (trace (sim_run c v))).
 Definition model_syscalls (c : case) (p : pid) : list Z := model_syscalls_v c p (Variant 0 0 []).
 Fixpoint zl_eqb (a b : list Z) : bool :=
   match a, b with
